@@ -11,7 +11,7 @@ ENTRIES = [(H.HYP, q) for q in (
 
 
 def run(ctx):
-    H.rule_r1(ctx)
-    u1(ctx, ENTRIES, min_functions=15)
+    ctx.do(H.rule_r1)
+    ctx.do(u1, ENTRIES, min_functions=15)
     ctx.r.assume("involutivity, fixed sets and the ordering of fixed points "
                  "are numerical and not decided")
